@@ -115,7 +115,12 @@ func DecodePublickeyFromString(s string, enc encoder.Encoder) (Publickey, error)
 		return nil, e.Errorf("empty")
 	}
 
-	switch i, found := objcache.Get(s); {
+	// NOTE objcache is shared with DecodeAddress; publickey results are kept
+	// under their own key, the result(also the failure) of decoding the same
+	// string as address must not be answered here.
+	cachekey := "publickey:" + s
+
+	switch i, found := objcache.Get(cachekey); {
 	case !found:
 	case i == nil:
 	default:
@@ -128,12 +133,12 @@ func DecodePublickeyFromString(s string, enc encoder.Encoder) (Publickey, error)
 
 	pub, err := decodePublickeyFromString(s, enc)
 	if err != nil {
-		objcache.Set(s, err, 0)
+		objcache.Set(cachekey, err, 0)
 
 		return nil, e.Wrap(err)
 	}
 
-	objcache.Set(s, pub, 0)
+	objcache.Set(cachekey, pub, 0)
 
 	return pub, nil
 }
